@@ -142,6 +142,9 @@ type machine struct {
 	events    []string // dag event log etc (engine-side)
 	charCache map[string][2]*Term
 	memo      map[string]value
+	smallVars map[string]*inputVar
+	varCache  map[*Term][]string
+	concrete  map[string]*Term
 }
 
 func newMachine(x *explorer, pool []*Solver, prefix []decision) *machine {
@@ -158,6 +161,9 @@ func newMachine(x *explorer, pool []*Solver, prefix []decision) *machine {
 		funcsRun:       map[*ssa.Function]int{},
 		phase:          "define",
 		memo:           map[string]value{},
+		smallVars:      map[string]*inputVar{},
+		varCache:       map[*Term][]string{},
+		concrete:       map[string]*Term{},
 	}
 	for _, s := range pool {
 		m.sessions = append(m.sessions, &sess{s: s})
@@ -302,12 +308,127 @@ func (m *machine) endSessions() {
 	}
 }
 
+// termVars returns (cached) the variable names of a term; uninterpreted
+// function applications contribute the pseudo-variable "@uf".
+func (m *machine) termVars(t *Term) []string {
+	if vs, ok := m.varCache[t]; ok {
+		return vs
+	}
+	set := map[string]bool{}
+	t.walk(func(x *Term) {
+		switch x.Op {
+		case "var":
+			set[x.Name] = true
+		case "pf_val", "f64_fmt", "f64_of_int", "go.tolower":
+			set["@uf"] = true
+		}
+	})
+	vs := make([]string, 0, len(set))
+	for v := range set {
+		vs = append(vs, v)
+	}
+	m.varCache[t] = vs
+	return vs
+}
+
+// slice returns the conjuncts of the path condition that share variables
+// (transitively) with the given terms. The rest of the path condition is
+// satisfiable on its own and cannot affect the answer.
+func (m *machine) pcSlice(extras []*Term) []*Term {
+	want := map[string]bool{}
+	for _, e := range extras {
+		for _, v := range m.termVars(e) {
+			want[v] = true
+		}
+	}
+	used := make([]bool, len(m.pc))
+	for changed := true; changed; {
+		changed = false
+		for i, c := range m.pc {
+			if used[i] {
+				continue
+			}
+			vs := m.termVars(c)
+			hit := false
+			for _, v := range vs {
+				if want[v] {
+					hit = true
+					break
+				}
+			}
+			if hit {
+				used[i] = true
+				changed = true
+				for _, v := range vs {
+					want[v] = true
+				}
+			}
+		}
+	}
+	var out []*Term
+	for i, c := range m.pc {
+		if used[i] {
+			out = append(out, c)
+		}
+	}
+	return out
+}
+
+// script renders the path condition (sliced to what matters for extras when
+// sliced is set) plus the extras as a standalone query.
+func (m *machine) script(extras []*Term, declOnly []*Term, sliced bool) string {
+	var b strings.Builder
+	decl := map[string]bool{}
+	d := func(t *Term) {
+		t.walk(func(x *Term) {
+			if x.Op == "var" && !decl[x.Name] {
+				decl[x.Name] = true
+				fmt.Fprintf(&b, "(declare-const %s %s)\n", x.key, x.Sort.smt())
+			}
+		})
+	}
+	pc := m.pc
+	if sliced {
+		pc = m.pcSlice(extras)
+	}
+	for _, c := range pc {
+		d(c)
+	}
+	for _, c := range extras {
+		d(c)
+	}
+	for _, c := range declOnly {
+		d(c)
+	}
+	for _, c := range pc {
+		fmt.Fprintf(&b, "(assert %s)\n", c.key)
+	}
+	for _, c := range extras {
+		fmt.Fprintf(&b, "(assert %s)\n", c.key)
+	}
+	return b.String()
+}
+
 // checkWith decides satisfiability of PC ∧ extra, escalating through the
 // solver portfolio while the answer is unknown.
 func (m *machine) checkWith(extra *Term) Result {
 	res := Unknown
 	for i, ss := range m.sessions {
 		if ss.s.dead {
+			continue
+		}
+		if ss.s.oneshot {
+			t0 := time.Now()
+			r, _, err := ss.s.runOneShot(m.script([]*Term{extra}, nil, true)+"(check-sat)\n", false)
+			m.x.noteQuery(i)
+			m.slowLog(t0, r, extra)
+			if err != nil {
+				panic(abortRun{err.Error()})
+			}
+			if r != Unknown {
+				return r
+			}
+			res = r
 			continue
 		}
 		if err := m.syncPC(ss); err != nil {
@@ -349,6 +470,16 @@ func (m *machine) branch(c *Term) bool {
 func (m *machine) branchNeg(c, nc *Term) bool {
 	if c.Op == "cb" {
 		return c.B
+	}
+	// small-domain inputs are concretised at first use (no solver involved)
+	if c2 := m.concretizeIn(c); c2 != c {
+		c = c2
+		if nc != nil {
+			nc = m.concretizeIn(nc)
+		}
+		if c.Op == "cb" {
+			return c.B
+		}
 	}
 	if m.known[c.key] {
 		return true
@@ -405,6 +536,48 @@ func (m *machine) branchNeg(c, nc *Term) bool {
 	m.pos++
 	m.addPC(c)
 	return true
+}
+
+// concretizeIn fixes the values of small-domain input variables occurring in c
+// (one explored alternative per value) and returns c with them substituted.
+func (m *machine) concretizeIn(c *Term) *Term {
+	if len(m.smallVars) == 0 {
+		return c
+	}
+	var todo []*inputVar
+	hit := false
+	c.walk(func(x *Term) {
+		if x.Op == "var" {
+			if iv, ok := m.smallVars[x.Name]; ok {
+				hit = true
+				if _, done := m.concrete[x.Name]; !done {
+					dup := false
+					for _, t := range todo {
+						if t == iv {
+							dup = true
+						}
+					}
+					if !dup {
+						todo = append(todo, iv)
+					}
+				}
+			}
+		}
+	})
+	if !hit {
+		return c
+	}
+	for _, iv := range todo {
+		var val *Term
+		if iv.Kind == "bool" {
+			val = mkBool(m.choose(2, "input "+iv.Name) == 1)
+		} else {
+			val = mkInt(iv.Lo + int64(m.choose(int(iv.Hi-iv.Lo+1), "input "+iv.Name)))
+		}
+		m.concrete[iv.Name] = val
+		m.addPC(mkEq(iv.T, val))
+	}
+	return substTerm(c, m.concrete)
 }
 
 // choose picks one of n unconstrained alternatives (scheduler, map order).
@@ -512,6 +685,9 @@ func (m *machine) model(extra *Term, also []*Term) (map[string]modelVal, map[str
 }
 
 func (m *machine) modelOn(si int, ss *sess, extra *Term, also []*Term) (map[string]modelVal, map[string]sexp, Result) {
+	if ss.s.oneshot {
+		return m.modelOneShot(si, ss, extra, also)
+	}
 	if err := m.syncPC(ss); err != nil {
 		panic(abortRun{err.Error()})
 	}
@@ -602,11 +778,96 @@ func (m *machine) modelOn(si int, ss *sess, extra *Term, also []*Term) (map[stri
 	return nil, nil, Unknown
 }
 
+func (m *machine) modelOneShot(si int, ss *sess, extra *Term, also []*Term) (map[string]modelVal, map[string]sexp, Result) {
+	var terms []*Term
+	for _, n := range m.inputOrder {
+		terms = append(terms, m.inputs[n].T)
+	}
+	all := append(append([]*Term{}, terms...), also...)
+	var extras []*Term
+	if extra != nil {
+		extras = append(extras, extra)
+	}
+	for attempt := 0; attempt < 2; attempt++ {
+		var gv strings.Builder
+		gv.WriteString("(check-sat)\n")
+		if len(all) > 0 {
+			gv.WriteString("(get-value (")
+			for _, t := range all {
+				gv.WriteString(t.key)
+				gv.WriteByte(' ')
+			}
+			gv.WriteString("))\n")
+		}
+		t0 := time.Now()
+		r, rest, err := ss.s.runOneShot(m.script(extras, all, false)+gv.String(), true)
+		m.x.noteQuery(si)
+		m.slowLog(t0, r, extra)
+		if err != nil {
+			panic(abortRun{err.Error()})
+		}
+		if r != Sat {
+			return nil, nil, r
+		}
+		vals := map[string]sexp{}
+		if len(all) > 0 {
+			vals, err = parseValues(rest, all)
+			if err != nil {
+				panic(abortRun{err.Error()})
+			}
+		}
+		res, okBytes := m.decodeModel(vals, also)
+		if okBytes {
+			return res, vals, Sat
+		}
+		for _, n := range m.inputOrder {
+			iv := m.inputs[n]
+			if iv.Kind == "string" {
+				extras = append(extras, mkInRe(iv.T, byteRangeRe))
+			}
+		}
+	}
+	return nil, nil, Unknown
+}
+
+func (m *machine) decodeModel(vals map[string]sexp, also []*Term) (map[string]modelVal, bool) {
+	res := map[string]modelVal{}
+	okBytes := true
+	for _, n := range m.inputOrder {
+		iv := m.inputs[n]
+		e := vals[iv.T.key]
+		switch iv.Kind {
+		case "string":
+			bs, ok := smtUnescape(e.atom)
+			if !ok {
+				okBytes = false
+			}
+			res[n] = modelVal{T: "string", Hex: fmt.Sprintf("%x", bs), Q: fmt.Sprintf("%q", string(bs))}
+		case "int":
+			v, _ := sexpInt(e)
+			res[n] = modelVal{T: "int", I: v}
+		case "bool":
+			res[n] = modelVal{T: "bool", B: e.atom == "true"}
+		case "float":
+			v, _ := sexpInt(e)
+			res[n] = modelVal{T: "float", Bits: uint64(v)}
+		}
+	}
+	for _, t := range also {
+		if t.Sort == SStr {
+			if _, ok := smtUnescape(vals[t.key].atom); !ok {
+				okBytes = false
+			}
+		}
+	}
+	return res, okBytes
+}
+
 var slowMu sync.Mutex
 
 func (m *machine) slowLog(t0 time.Time, r Result, extra *Term) {
 	p := os.Getenv("SYMGO_SLOWLOG")
-	if p == "" || time.Since(t0) < 800*time.Millisecond {
+	if p == "" || (time.Since(t0) < 800*time.Millisecond && os.Getenv("SYMGO_LOGALL") == "") {
 		return
 	}
 	slowMu.Lock()
